@@ -49,6 +49,8 @@ def main():
     ids = sorted(os.listdir(os.path.join(HERE, 'seeded')))
     if a.only:
         ids = [i for i in ids if i in a.only]
+    # changes that the fix commits made harmless (meta.json status 'obsolete') are kept for the record only
+    ids = [i for i in ids if json.load(open(os.path.join(HERE, 'seeded', i, 'meta.json'))).get('status') != 'obsolete']
     jobs = max(2, 16 // a.P)
     with concurrent.futures.ThreadPoolExecutor(a.P) as ex:
         for lines, sid, caught, tried in ex.map(lambda s: one(s, a.tier, jobs), ids):
